@@ -34,6 +34,8 @@ def tla_value(v):
     if isinstance(v, int):
         return str(v)
     if isinstance(v, str):
+        if v.startswith("mv:"):
+            return v[3:]          # a TLC model value
         return '"%s"' % v
     if isinstance(v, (set, frozenset)):
         return "{" + ", ".join(tla_value(x) for x in sorted(v, key=lambda x: (str(type(x)), x))) + "}"
@@ -116,7 +118,7 @@ STATS_RE = re.compile(r"(\d+) states generated, (\d+) distinct states found")
 
 def run_tlc(ctx, module, constants, invariants, tag, emit_to=None, workers=4, timeout=900,
             init="Init", next_="Next", extra_cfg="", simulate=None, env_extra=None, xmx="4g",
-            postcondition=None, spec_dir=SPEC):
+            postcondition=None, spec_dir=SPEC, specification=None, properties=()):
     """Run TLC on spec/<module>.tla with a generated cfg. Returns a dict with
     states, distinct, vectors (path or None), seconds. Raises ToolError when the
     model itself fails (invariant violated, parse error, timeout): that is
@@ -126,8 +128,13 @@ def run_tlc(ctx, module, constants, invariants, tag, emit_to=None, workers=4, ti
     cfg = ["CONSTANTS"]
     for k, v in constants.items():
         cfg.append(" %s = %s" % (k, tla_value(v)))
-    cfg.append("INIT %s" % init)
-    cfg.append("NEXT %s" % next_)
+    if specification:
+        cfg.append("SPECIFICATION %s" % specification)
+    else:
+        cfg.append("INIT %s" % init)
+        cfg.append("NEXT %s" % next_)
+    for pr in properties:
+        cfg.append("PROPERTY %s" % pr)
     for i in invariants:
         cfg.append("INVARIANT %s" % i)
     if postcondition:
